@@ -128,7 +128,9 @@ def run_history(family, ops, seed, want_trace=False):
                     _verif.emit("params_changed", step=i)
             elif a in ("Predict", "PriorPredict"):
                 s = dict(fpv=op.get("fpv", False), detach=op.get("detach", True), jit=op.get("jit", "d0"))
-                extra = dict(lazy=bool(op.get("lazy", True)), eager=rnd.choice([512, 1]), skipvar=(rnd.random() < 0.15))
+                # skip_posterior_variances selects its own code path (and its own hidden state): every fifth history uses it for ALL its
+                # predictions, the others occasionally
+                extra = dict(lazy=bool(op.get("lazy", True)), eager=rnd.choice([512, 1]), skipvar=(seed % 5 == 0 or rnd.random() < 0.1))
                 extra["xb"] = op.get("xb", "flat") if not prior_op(a) else "flat"
                 if family == "mtask":
                     extra["eager"] = 512
